@@ -38,7 +38,12 @@ type c13Hdr struct {
 }
 
 type c13Case struct {
-	Mode int `json:"mode"` // 0 = BasicAuth, 1 = KeyAuth
+	Mode int `json:"mode"` // 0 = BasicAuth, 1 = KeyAuth, 2 = overlapping requests through ONE middleware instance (c13_conc.go)
+
+	// mode 2: the requests (Sub[0] also carries the configuration and the validator table) and, per request,
+	// the index of the validator call inside which it waits until the next request has been served (-1: never)
+	Sub     []*c13Case `json:"sub,omitempty"`
+	BlockAt []int      `json:"block_at,omitempty"`
 
 	// validator
 	Default  int        `json:"default"`
@@ -101,8 +106,11 @@ type c13Call struct{ u, p string }
 
 func c13Run(ci any) Result {
 	c := ci.(*c13Case)
-	if c.Mode == 0 {
+	switch c.Mode {
+	case 0:
 		return c13RunBasic(c)
+	case 2:
+		return c13RunConc(c)
 	}
 	return c13RunKey(c)
 }
@@ -159,55 +167,8 @@ func c13RunBasic(c *c13Case) (res Result) {
 	}
 	res.Obs = strings.Join(obs, " ")
 
-	// ---- model-free oracle: the property itself
-	// credentials literally present in the request: first Authorization value, scheme "basic" in any
-	// casing, base64 text after the sixth byte, split at the first colon
-	var du, dp string
-	derived, wellFormed := false, false
-	if len(c.Auth) > 0 {
-		h := string(c.Auth[0])
-		if len(h) >= 6 && strings.EqualFold(h[:5], "basic") {
-			if dec, err := base64.StdEncoding.DecodeString(h[6:]); err == nil {
-				if u, p, found := strings.Cut(string(dec), ":"); found {
-					du, dp, derived = u, p, true
-					wellFormed = h[5] == ' '
-				}
-			}
-		}
-	}
-	fail := func(s string) {
-		if res.Oracle == "" {
-			res.Oracle = s
-		}
-	}
-	for _, cl := range calls {
-		if !derived || cl.u != du || cl.p != dp {
-			fail(fmt.Sprintf("validator called with (%q, %q), which is not the decoded text of the request's credentials split at the first colon", cl.u, cl.p))
-		}
-	}
-	if ran {
-		if len(calls) == 0 {
-			fail("handler ran although the validator was never called")
-		} else {
-			last := calls[len(calls)-1]
-			if out := c.lookup([]byte(last.u), []byte(last.p)); out != 1 {
-				fail(fmt.Sprintf("handler ran although the validator answered %d for (%q, %q)", out, last.u, last.p))
-			}
-		}
-	} else {
-		if wellFormed && c.lookup([]byte(du), []byte(dp)) == 1 {
-			fail(fmt.Sprintf("well-formed credentials (%q, %q) accepted by the validator did not reach the handler (status %d)", du, dp, rec.Code))
-		}
-		okStatus := rec.Code == 400 || rec.Code == 401
-		if len(calls) > 0 {
-			if out := c.lookup([]byte(calls[len(calls)-1].u), []byte(calls[len(calls)-1].p)); out >= 100 && rec.Code == out {
-				okStatus = true
-			}
-		}
-		if !okStatus {
-			fail(fmt.Sprintf("rejected request answered with status %d (expected 400, 401 or the validator's error)", rec.Code))
-		}
-	}
+	oracle, derived, wellFormed := c13BasicOracle(c, calls, ran, rec.Code)
+	res.Oracle = oracle
 
 	switch {
 	case ran:
@@ -475,10 +436,91 @@ func c13RunKey(c *c13Case) (res Result) {
 	}
 	res.Obs = strings.Join(obs, " ")
 
-	// ---- model-free oracle
+	res.Oracle = c13KeyOracle(c, srcs, located, calls, ran, rec.Code)
+
+	switch {
+	case ran && ehClass != 0:
+		res.Tags = append(res.Tags, "key:continued-on-ignored-error")
+	case ran:
+		res.Tags = append(res.Tags, "key:ran")
+	case len(calls) == 0:
+		res.Tags = append(res.Tags, "key:nothing-extracted")
+	default:
+		res.Tags = append(res.Tags, "key:all-rejected")
+	}
+	for i, s := range srcs {
+		res.Tags = append(res.Tags, "key:src-"+s.kind)
+		if len(located[i]) > 20 {
+			res.Tags = append(res.Tags, "key:over-limit")
+		}
+		if s.kind == "header" && s.pre != "" && len(located[i]) > len(c13Candidates(s, located[i], 0)) {
+			res.Tags = append(res.Tags, "key:prefix-mismatch")
+		}
+	}
+	if len(srcs) > 1 {
+		res.Tags = append(res.Tags, "key:multi-source")
+	}
+	res.Nontrivial = len(calls) > 0
+	return res
+}
+
+// c13BasicOracle evaluates the property itself on what one BasicAuth request did (no model).
+func c13BasicOracle(c *c13Case, calls []c13Call, ran bool, code int) (oracle string, derived, wellFormed bool) {
+	// credentials literally present in the request: first Authorization value, scheme "basic" in any
+	// casing, base64 text after the sixth byte, split at the first colon
+	var du, dp string
+	if len(c.Auth) > 0 {
+		h := string(c.Auth[0])
+		if len(h) >= 6 && strings.EqualFold(h[:5], "basic") {
+			if dec, err := base64.StdEncoding.DecodeString(h[6:]); err == nil {
+				if u, p, found := strings.Cut(string(dec), ":"); found {
+					du, dp, derived = u, p, true
+					wellFormed = h[5] == ' '
+				}
+			}
+		}
+	}
 	fail := func(s string) {
-		if res.Oracle == "" {
-			res.Oracle = s
+		if oracle == "" {
+			oracle = s
+		}
+	}
+	for _, cl := range calls {
+		if !derived || cl.u != du || cl.p != dp {
+			fail(fmt.Sprintf("validator called with (%q, %q), which is not the decoded text of the request's credentials split at the first colon", cl.u, cl.p))
+		}
+	}
+	if ran {
+		if len(calls) == 0 {
+			fail("handler ran although the validator was never called")
+		} else {
+			last := calls[len(calls)-1]
+			if out := c.lookup([]byte(last.u), []byte(last.p)); out != 1 {
+				fail(fmt.Sprintf("handler ran although the validator answered %d for (%q, %q)", out, last.u, last.p))
+			}
+		}
+	} else {
+		if wellFormed && c.lookup([]byte(du), []byte(dp)) == 1 {
+			fail(fmt.Sprintf("well-formed credentials (%q, %q) accepted by the validator did not reach the handler (status %d)", du, dp, code))
+		}
+		okStatus := code == 400 || code == 401
+		if len(calls) > 0 {
+			if out := c.lookup([]byte(calls[len(calls)-1].u), []byte(calls[len(calls)-1].p)); out >= 100 && code == out {
+				okStatus = true
+			}
+		}
+		if !okStatus {
+			fail(fmt.Sprintf("rejected request answered with status %d (expected 400, 401 or the validator's error)", code))
+		}
+	}
+	return oracle, derived, wellFormed
+}
+
+// c13KeyOracle evaluates the property itself on what one KeyAuth request did (no model).
+func c13KeyOracle(c *c13Case, srcs []c13Src, located [][]c13Pair, calls []string, ran bool, code int) (oracle string) {
+	fail := func(s string) {
+		if oracle == "" {
+			oracle = s
 		}
 	}
 	present := map[string]bool{}
@@ -507,45 +549,21 @@ func c13RunKey(c *c13Case) (res Result) {
 		}
 	} else {
 		if firstAccepted != nil {
-			fail(fmt.Sprintf("key %q is present at a configured location and accepted by the validator, but the handler did not run (status %d)", *firstAccepted, rec.Code))
+			fail(fmt.Sprintf("key %q is present at a configured location and accepted by the validator, but the handler did not run (status %d)", *firstAccepted, code))
 		}
-		if c.EH == 0 && rec.Code != 400 && rec.Code != 401 {
+		if c.EH == 0 && code != 400 && code != 401 {
 			fromValidator := false
 			for _, k := range calls {
-				if out := c.lookup([]byte(k), nil); out >= 100 && out != 500 && out == rec.Code {
+				if out := c.lookup([]byte(k), nil); out >= 100 && out != 500 && out == code {
 					fromValidator = true // the validator's own *echo.HTTPError
 				}
 			}
 			if !fromValidator {
-				fail(fmt.Sprintf("rejected request answered with status %d (expected 400, 401 or the validator's error)", rec.Code))
+				fail(fmt.Sprintf("rejected request answered with status %d (expected 400, 401 or the validator's error)", code))
 			}
 		}
 	}
-
-	switch {
-	case ran && ehClass != 0:
-		res.Tags = append(res.Tags, "key:continued-on-ignored-error")
-	case ran:
-		res.Tags = append(res.Tags, "key:ran")
-	case len(calls) == 0:
-		res.Tags = append(res.Tags, "key:nothing-extracted")
-	default:
-		res.Tags = append(res.Tags, "key:all-rejected")
-	}
-	for i, s := range srcs {
-		res.Tags = append(res.Tags, "key:src-"+s.kind)
-		if len(located[i]) > 20 {
-			res.Tags = append(res.Tags, "key:over-limit")
-		}
-		if s.kind == "header" && s.pre != "" && len(located[i]) > len(c13Candidates(s, located[i], 0)) {
-			res.Tags = append(res.Tags, "key:prefix-mismatch")
-		}
-	}
-	if len(srcs) > 1 {
-		res.Tags = append(res.Tags, "key:multi-source")
-	}
-	res.Nontrivial = len(calls) > 0
-	return res
+	return oracle
 }
 
 // ---------- generators ----------
@@ -897,6 +915,10 @@ func c13Gen(r *rand.Rand, tier string) []any {
 			out = append(out, c13GenKey(r))
 		}
 	}
+	// deterministic overlapping requests through one middleware instance (oracle only)
+	for i := 0; i < n/8; i++ {
+		out = append(out, c13GenConc(r))
+	}
 	return out
 }
 
@@ -919,6 +941,9 @@ func c13Clone(c *c13Case) *c13Case {
 
 func c13Shrink(ci any) []any {
 	c := ci.(*c13Case)
+	if c.Mode == 2 {
+		return c13ShrinkConc(c)
+	}
 	var out []any
 	for i := range c.Table {
 		d := c13Clone(c)
@@ -981,7 +1006,7 @@ func c13Shrink(ci any) []any {
 func init() {
 	register(&Prop{
 		ID: "C13",
-		Rule: "half BasicAuth, half KeyAuth. Basic: Authorization values assembled from scheme (casings, truncated, foreign, with U+017F / U+212A / invalid bytes) + separator (space, none, other) + payload (std base64 of user:password incl. empty parts, colons in the password, non-UTF-8; unpadded, URL alphabet, CR/LF inside, truncated, trailing garbage, foreign character, non-zero trailing bits, raw), 0-3 header lines, validator table keyed by credentials (the intended pair + near misses such as the split at the last colon) with outcomes true/false/error((false|true),err). Key: 1-3 lookup sources (header with scheme prefix / explicit cut prefix / none, query, form, cookie), 0-23 values per location with prefix variants, ErrorHandler absent / returns nil / passes / returns HTTPError, ContinueOnIgnoredError. Non-trivial = the validator was called or the base64 text was rejected; distinct = distinct model op lines",
+		Rule: "sequential cases (compared with the model): half BasicAuth, half KeyAuth; plus 1/8 as many overlapping streams (oracle only): ONE middleware instance, 2-3 requests with multi-value headers / several lookup sources, request i stops inside its k-th validator call (channels, no timing) until request i+1 has been served completely, every request judged on its own by the same oracle. Sequential cases: Basic: Authorization values assembled from scheme (casings, truncated, foreign, with U+017F / U+212A / invalid bytes) + separator (space, none, other) + payload (std base64 of user:password incl. empty parts, colons in the password, non-UTF-8; unpadded, URL alphabet, CR/LF inside, truncated, trailing garbage, foreign character, non-zero trailing bits, raw), 0-3 header lines, validator table keyed by credentials (the intended pair + near misses such as the split at the last colon) with outcomes true/false/error((false|true),err). Key: 1-3 lookup sources (header with scheme prefix / explicit cut prefix / none, query, form, cookie), 0-23 values per location with prefix variants, ErrorHandler absent / returns nil / passes / returns HTTPError, ContinueOnIgnoredError. Non-trivial = the validator was called or the base64 text was rejected; distinct = distinct model op lines",
 		New:            func() any { return &c13Case{} },
 		Gen:            c13Gen,
 		Run:            c13Run,
